@@ -17,6 +17,9 @@ Three exhaustive families of histories (bounds per tier in ``bounds()``):
       raw_response {False, True}: the response processors of the whole chain must each run once, in
       reverse order, on the value the reference model defines (a non-JSON body with raw_response=False
       has no defined result: counted, not judged);
+  H4  falsy processor outputs: every chain of 1-2 response processors drawn from a tagging processor and
+      processors whose legitimate output is None, 0, [], "" (built by wraps, lists, clones): the next outer
+      processor / the caller must receive exactly that value;
   H2  request sequences: every interleaving of D2 derivations and K requests (no probing in between),
       requests taken from node x entry point x a small shape alphabet; caller-owned header/param/body
       objects are *shared* between the requests of one history.
@@ -92,6 +95,10 @@ REQUIRED_FEATURES = [
     "auth:basic:b64-sextet-62", "auth:basic:b64-sextet-63", "auth:basic:non-ascii",
     "auth:client:b64-sextet-62", "auth:client:b64-sextet-63", "auth:client:non-ascii",
     "auth:clone-adapter:b64-sextet-62+63",
+    "processor:returns-null", "processor:returns-0", "processor:returns-[]", 'processor:returns-""',
+    "processor:falsy-output-into-outer-processor", "processor:falsy-output-to-caller",
+    "root:tuple-slash", "root:dict-slash", "root:str-2slash",
+    "url:address-ends-with-slash+relative-path", "url:address-ends-with-slash+relative-prefix",
     "shared-caller-object-reused", "root:str", "root:str-slash", "root:list", "root:dict-noids",
     "verb:get", "verb:post", "verb:put", "verb:delete", "verb:patch",
 ]
@@ -103,7 +110,12 @@ ROOTS = {
     "list": {"conn_data": ["http://h:8080/api/"], "address": "http://h:8080/api/", "ids": True},
     "dict-noids": {"conn_data": {"address": "http://h:8080/api", "_send_request_ids": False},
                    "address": "http://h:8080/api", "ids": False},
+    # addresses that still end with "/" at request time (only a str conn_data is stripped, and only once)
+    "tuple-slash": {"conn_data": ["http://h:8080/api/"], "as_tuple": True, "address": "http://h:8080/api/", "ids": True},
+    "dict-slash": {"conn_data": {"address": "http://h:8080/svc/"}, "address": "http://h:8080/svc/", "ids": True},
+    "str-2slash": {"conn_data": "http://h:8080/x//", "address": "http://h:8080/x//", "ids": True},
 }
+SLASH_ROOTS = ("list", "tuple-slash", "dict-slash", "str-2slash")
 PREFIX_MAP = {"compA": "/cmpA", "compB": "cmpB/", "compE": "", "other": "/other"}
 ENTRY_COMPONENT = {"m_plain": None, "m_a": "compA", "m_b": "compB", "m_e": "compE"}
 
@@ -168,13 +180,19 @@ def full_shapes():
 TIERS = {
     # H1: (root, derivation depth, probing)   H0: root -> family depth   H2: (root, derivations, requests)
     #     probing "full": full probe set after every derivation; "light-last": light set after the last one
-    "quick": {"H1": [("str", 3, "full"), ("str-slash", 2, "full"), ("list", 2, "full"), ("dict-noids", 2, "full")],
-              "H0": {"str": 1, "str-slash": 0, "list": 0, "dict-noids": 0},
+    "quick": {"H1": [("str", 3, "full"), ("str-slash", 2, "full"), ("list", 2, "full"), ("dict-noids", 2, "full"),
+                     ("tuple-slash", 2, "full"), ("dict-slash", 2, "full"), ("str-2slash", 2, "full")],
+              "H0": {"str": 1, "str-slash": 0, "list": 0, "dict-noids": 0, "tuple-slash": 0, "dict-slash": 0,
+                     "str-2slash": 0},
+              "H4": ["str", "list"],
               "H3": {"str": 2, "dict-noids": 1},
               "H2": [("str", 2, 2)]},
     "thorough": {"H1": [("str", 3, "full"), ("str", 4, "light-last"), ("str-slash", 3, "full"), ("list", 3, "full"),
-                        ("dict-noids", 3, "full")],
-                 "H0": {"str": 2, "str-slash": 1, "list": 1, "dict-noids": 1},
+                        ("dict-noids", 3, "full"), ("tuple-slash", 3, "full"), ("dict-slash", 2, "full"),
+                        ("str-2slash", 2, "full")],
+                 "H0": {"str": 2, "str-slash": 1, "list": 1, "dict-noids": 1, "tuple-slash": 1, "dict-slash": 1,
+                        "str-2slash": 1},
+                 "H4": ["str", "list", "dict-noids", "tuple-slash"],
                  "H3": {"str": 3, "dict-noids": 2, "list": 2, "str-slash": 1},
                  "H2": [("str", 2, 2), ("str", 2, 3), ("dict-noids", 2, 2), ("list", 2, 2)]},
 }
@@ -184,6 +202,7 @@ def bounds(tier):
     t = TIERS[tier]
     return {"H1_derivation_depth_per_root": t["H1"], "H0_family_depth_per_root": t["H0"],
             "H2_root_derivations_requests": t["H2"], "H3_family_depth_per_root": t["H3"],
+            "H4_processor_chain_roots": t["H4"], "processor_outputs": CONSTS,
             "canned_response_bodies": RESP_BODIES,
             "roots": {k: v["conn_data"] for k, v in ROOTS.items()},
             "layers": [P1, P2, PQ, PC1, PC2, BASIC, TOKEN, CLIENT, HDR, ["resp", "<position>"], RS],
@@ -201,6 +220,18 @@ class RespTag(conn_http.RequestAdapter):
 
     def process_response(self, return_value):
         return ["resp", self.tag, return_value]
+
+
+class ConstResp(conn_http.RequestAdapter):
+    """Response processor whose legitimate output is a fixed (possibly None / falsy) value."""
+    def __init__(self, value):
+        self.value = value
+
+    def process_response(self, return_value):
+        return copy.deepcopy(self.value)
+
+
+CONSTS = [None, 0, [], ""]
 
 
 class HdrAdapter(conn_http.RequestAdapter):
@@ -248,6 +279,8 @@ def mk_adapter(layer):
         return conn_http.ClientAuthConn.Adapter(layer[1], layer[2], layer[3])
     if k == "resp":
         return RespTag(layer[1])
+    if k == "const":
+        return ConstResp(layer[1])
     if k == "hdr":
         return HdrAdapter(layer[1], layer[2])
     raise ValueError(layer)
@@ -341,7 +374,8 @@ class World:
         _MODSTATE.restore()
         self.rootname = rootname
         self.rec = Recorder()
-        root = conn_http.HttpConn(copy.deepcopy(spec["conn_data"]))
+        cd = copy.deepcopy(spec["conn_data"])
+        root = conn_http.HttpConn(tuple(cd) if spec.get("as_tuple") else cd)
         root.conn_impl.opener = self.rec
         self.real = [root]
         self.fam = hm.Family(spec["address"], spec["ids"], PREFIX_MAP)
@@ -495,6 +529,16 @@ class World:
                     cn = n if n["kind"] == "conn" else fam.nodes[n["conn"]]
                     if l[0] == "basic" and n["made_by"].startswith("clone") and len(prof) >= 2 and l in cn["own"]:
                         cf.add("auth:clone-adapter:b64-sextet-62+63")
+            procs = [l for l in chain if l[0] in ("resp", "const")]
+            for i, l in enumerate(procs):
+                if l[0] == "const":
+                    cf.add("processor:returns-" + json.dumps(l[1]))
+                    cf.add("processor:falsy-output-into-outer-processor" if i > 0
+                           else "processor:falsy-output-to-caller")
+            if self.fam.address.endswith("/"):
+                first = next((l[1] for l in reversed(chain) if l[0] == "prefix"), None)
+                if first is not None and not first.startswith("/"):
+                    cf.add("url:address-ends-with-slash+relative-prefix")
             cf.add("entry:conn" if entry == "conn" else "entry:wrapper")
             if comp is not None:
                 cf.add("entry:wrapper+component-prefix" if PREFIX_MAP[comp] else "entry:wrapper+empty-prefix")
@@ -520,6 +564,9 @@ class World:
         f = self.feats
         f |= chain_feats
         f |= _shape_features(shp)
+        if fam.address.endswith("/") and not shp["path"].startswith("/") and \
+                not any(l[0] == "prefix" for l in chain):
+            f.add("url:address-ends-with-slash+relative-path")
         if node != self.last_new and self.last_deriv != "root":
             f.add("reprobe-of-original")
         # the call
@@ -767,6 +814,26 @@ def interleavings(rootname, pattern, first=None):
     yield from rec([], 0, 0)
 
 
+PROC_SHAPES = [shape("get", "r/s"), shape("post", "/r/s", data=DATAS[3], raw=True), shape("get", "", resp=""),
+               shape("get", "r/s", resp="null")]
+
+
+def processor_histories():
+    """H4: every chain of 1-2 response processors from {tagging processor} + {processors whose output is
+    None, 0, [], ""}, built by two wraps, by one list, by a clone with a list, and by a clone of a wrap."""
+    procs = [["resp", "t"]] + [["const", v] for v in CONSTS]
+    for p1 in procs:
+        yield [["wrap", 0, [p1], "single"]]
+        yield [["caller", 0], ["clone", 1, [p1], "single"]]
+        for p2 in procs:
+            if p1[0] == "resp" and p2[0] == "resp":
+                continue
+            yield [["wrap", 0, [p1], "single"], ["wrap", 1, [p2], "single"]]
+            yield [["wrap", 0, [p1, p2], "list"]]
+            yield [["caller", 0], ["clone", 1, [p1, p2], "list"]]
+            yield [["wrap", 0, [p1], "single"], ["caller", 1], ["clone", 2, [p2], "single"]]
+
+
 def patterns(nd, nr):
     return sorted({"".join(p) for p in itertools.permutations("D" * nd + "R" * nr)})
 
@@ -793,6 +860,8 @@ def shards(tier):
         for depth in range(1, dmax + 1):
             for i in range(n_first_choices(root, last=(depth == 1))):
                 out.append(("H3", root, depth, i))
+    for root in t["H4"]:
+        out.append(("H4", root))
     for root, nd, nr in t["H2"]:
         for pat in patterns(nd, nr):
             for i in range(n_first_choices(root, last=False) - 0):
@@ -999,6 +1068,18 @@ def run_shard(shard, tier, seed, acc):
                         _report(acc, rootname, findings, shrunk)
                 if acc.expired():
                     return
+        elif kind == "H4":
+            for ops in processor_histories():
+                fam = _fresh_family(rootname)
+                for o in ops:
+                    model_apply(fam, o)
+                reqs = []
+                for node, n in enumerate(fam.nodes):
+                    for entry in (["conn"] if n["kind"] == "conn" else ["m_plain", "m_b"]):
+                        reqs.extend(["req", node, entry, s] for s in PROC_SHAPES)
+                w, findings, executed = run_ops(rootname, ops + reqs)
+                _account(acc, w, findings, len(executed))
+                _report(acc, rootname, findings, shrunk)
         elif kind == "H3":
             _, _, depth, first = shard
             for ops in derivation_sequences(rootname, depth, first):
